@@ -9,14 +9,16 @@ import sys
 def prime_process_state():
     """Build up the process-global state a long-running program would have before the
     checks start: every record type is first looked up in the *other* classes (CH, HS, an
-    unknown class) and only then in IN/ANY, so that lookups memoised under the wrong class
+    unknown class, and the meta classes ANY and NONE that dynamic updates put on the wire) and
+    only then in IN, so that lookups memoised under the wrong class
     (dns.rdata.get_rdata_class keeps a process-wide cache) show up in every check instead of
     depending on which class a process happens to see first."""
     import dns.rdata
     import dns.rdataclass
     import dns.rdatatype
     types = [t for t in dns.rdatatype.RdataType]
-    for cls in (dns.rdataclass.CH, dns.rdataclass.HS, dns.rdataclass.RdataClass.make(17)):
+    for cls in (dns.rdataclass.ANY, dns.rdataclass.NONE, dns.rdataclass.CH, dns.rdataclass.HS,
+                dns.rdataclass.RdataClass.make(17)):
         for t in types:
             try:
                 dns.rdata.get_rdata_class(cls, t)
